@@ -1180,7 +1180,34 @@ func c07Workbook(r *Run, rng *Rng, idx int) {
 			cells = append(cells, cl)
 		}
 	}
-	sp := c07SpecialPlace(r, f, rng, sheets, edited)
+	// twin formulas: the SAME text on every sheet including the edited one (cells here, data-validation
+	// rules in c07SpecialPlace): one with unqualified references only (means something different on
+	// every sheet), one qualified with the edited sheet's name (means the same everywhere)
+	var twins []*c07Node
+	for k, gt := range []*c07Gen{{rng: rng, small: true, evalOnly: true}, {rng: rng, small: true, evalOnly: true, sheets: []string{edited}}} {
+		var t *c07Node
+		for try := 0; try < 50; try++ {
+			t = gt.tree(rng.Range(1, 2))
+			var ops []*c07Node
+			t.operands(&ops)
+			qualified := false
+			for _, o := range ops {
+				if o.kind == "ref" && o.ref.sheet != "" {
+					qualified = true
+				}
+			}
+			if len(ops) > 0 && (k == 0 || qualified) {
+				break
+			}
+		}
+		twins = append(twins, t)
+		for _, s := range sheets {
+			cl := &c07Cell{sheet: s, col: 14, row: 28 + k, tree: t, formula: t.String()}
+			must(f.SetCellFormula(s, c07Name(cl.col, cl.row), cl.formula))
+			cells = append(cells, cl)
+		}
+	}
+	sp := c07SpecialPlace(r, f, rng, sheets, edited, idx, twins)
 	calc := func(s, cell string) (v string, isErr bool) {
 		defer func() {
 			if p := recover(); p != nil {
